@@ -174,6 +174,10 @@ const TARGETS: &[Target] = &[
     Target { file: "ssz/src/decode/impls.rs", imp: "[u8;N]", tr: "Decode", name: "from_ssz_bytes", coq: "array_from_ssz_bytes" },
     Target { file: "ssz/src/decode/impls.rs", imp: "Vec<T>", tr: "Decode", name: "is_ssz_fixed_len", coq: "vec_dec_is_ssz_fixed_len" },
     Target { file: "ssz/src/decode/impls.rs", imp: "Vec<T>", tr: "Decode", name: "from_ssz_bytes", coq: "vec_from_ssz_bytes" },
+    Target { file: "ssz/src/decode/impls.rs", imp: "SmallVec<[T;N]>", tr: "Decode", name: "is_ssz_fixed_len", coq: "smallvec_dec_is_ssz_fixed_len" },
+    Target { file: "ssz/src/decode/impls.rs", imp: "SmallVec<[T;N]>", tr: "Decode", name: "from_ssz_bytes", coq: "smallvec_from_ssz_bytes" },
+    Target { file: "ssz/src/decode/impls.rs", imp: "BTreeSet<T>", tr: "Decode", name: "is_ssz_fixed_len", coq: "btreeset_dec_is_ssz_fixed_len" },
+    Target { file: "ssz/src/decode/impls.rs", imp: "BTreeSet<T>", tr: "Decode", name: "from_ssz_bytes", coq: "btreeset_from_ssz_bytes" },
     Target { file: "ssz/src/decode/impls.rs", imp: "Address", tr: "Decode", name: "is_ssz_fixed_len", coq: "address_dec_is_ssz_fixed_len" },
     Target { file: "ssz/src/decode/impls.rs", imp: "Address", tr: "Decode", name: "ssz_fixed_len", coq: "address_dec_ssz_fixed_len" },
     Target { file: "ssz/src/decode/impls.rs", imp: "Address", tr: "Decode", name: "from_ssz_bytes", coq: "address_from_ssz_bytes" },
@@ -246,6 +250,12 @@ const TARGETS: &[Target] = &[
     Target { file: "ssz/src/encode/impls.rs", imp: "Vec<T>", tr: "Encode", name: "is_ssz_fixed_len", coq: "vec_enc_is_ssz_fixed_len" },
     Target { file: "ssz/src/encode/impls.rs", imp: "Vec<T>", tr: "Encode", name: "ssz_bytes_len", coq: "vec_ssz_bytes_len" },
     Target { file: "ssz/src/encode/impls.rs", imp: "Vec<T>", tr: "Encode", name: "ssz_append", coq: "vec_ssz_append" },
+    Target { file: "ssz/src/encode/impls.rs", imp: "SmallVec<[T;N]>", tr: "Encode", name: "is_ssz_fixed_len", coq: "smallvec_enc_is_ssz_fixed_len" },
+    Target { file: "ssz/src/encode/impls.rs", imp: "SmallVec<[T;N]>", tr: "Encode", name: "ssz_bytes_len", coq: "smallvec_ssz_bytes_len" },
+    Target { file: "ssz/src/encode/impls.rs", imp: "SmallVec<[T;N]>", tr: "Encode", name: "ssz_append", coq: "smallvec_ssz_append" },
+    Target { file: "ssz/src/encode/impls.rs", imp: "BTreeSet<T>", tr: "Encode", name: "is_ssz_fixed_len", coq: "btreeset_enc_is_ssz_fixed_len" },
+    Target { file: "ssz/src/encode/impls.rs", imp: "BTreeSet<T>", tr: "Encode", name: "ssz_bytes_len", coq: "btreeset_ssz_bytes_len" },
+    Target { file: "ssz/src/encode/impls.rs", imp: "BTreeSet<T>", tr: "Encode", name: "ssz_append", coq: "btreeset_ssz_append" },
     Target { file: "ssz/src/encode/impls.rs", imp: "Address", tr: "Encode", name: "is_ssz_fixed_len", coq: "address_enc_is_ssz_fixed_len" },
     Target { file: "ssz/src/encode/impls.rs", imp: "Address", tr: "Encode", name: "ssz_fixed_len", coq: "address_enc_ssz_fixed_len" },
     Target { file: "ssz/src/encode/impls.rs", imp: "Address", tr: "Encode", name: "ssz_bytes_len", coq: "address_ssz_bytes_len" },
@@ -444,7 +454,8 @@ fn self_ty_coq(imp: &str) -> Option<String> {
         "bool" => "bool".to_string(),
         "Address" | "Bloom" | "FixedBytes<N>" | "[u8;N]" | "Bytes" => "bytes".to_string(),
         "Option<T>" => "(option A_T)".to_string(),
-        "Vec<T>" | "SmallVec<[T;N]>" => "(list A_T)".to_string(),
+        // a `BTreeSet<T>` is its elements in ascending order (how `iter()` yields them)
+        "Vec<T>" | "SmallVec<[T;N]>" | "BTreeSet<T>" => "(list A_T)".to_string(),
         "Arc<T>" | "&T" => "A_T".to_string(),
         _ => return None,
     })
@@ -908,7 +919,14 @@ impl Cx {
                 }
                 all.push(member.clone());
             } else if mem == "try_from_iter" {
-                all.push(format!("{}_try_from_iter", base_of(&self.cur_imp).to_lowercase()));
+                if self.cur_imp == "BTreeSet<T>" {
+                    if !self.dict_used.contains(&("T".to_string(), "cmp".to_string())) {
+                        self.dict_used.push(("T".to_string(), "cmp".to_string()));
+                    }
+                    all.push("(btreeset_try_from_iter T_cmp)".to_string());
+                } else {
+                    all.push(format!("{}_try_from_iter", base_of(&self.cur_imp).to_lowercase()));
+                }
             } else {
                 return Err(format!("cannot supply {} to the generic function {}", member, coq));
             }
@@ -1326,6 +1344,10 @@ impl Cx {
                     }
                     return Err(format!("{}::to_usize() of a type parameter that is not a type-level number in scope", n));
                 }
+                if (f == "SmallVec::new" && c.args.is_empty()) || (f == "Self::from_iter" && c.args.len() == 1 && tokens(&c.args[0]).replace(' ', "") == "iter::empty()" && self.cur_imp.starts_with("BTree")) {
+                    // the empty collection
+                    return Ok(("[]".into(), Pure));
+                }
                 if (f == "alloc::vec::Vec::new" || f == "Vec::new") && c.args.is_empty() {
                     // what `vec![]` expands to
                     return Ok(("[]".into(), Pure));
@@ -1657,6 +1679,13 @@ impl Cx {
         // `xs.chunks(n).map(f).collect()` into a `Result<Vec<_>, _>`: stops at the first error
         if name == "collect" {
             let (r, k) = self.expr(&m.receiver)?;
+            if self.cur_imp == "BTreeSet<T>" && k == Comp {
+                // into a `Result<BTreeSet<T>, _>`: the items up to the first error, then `from_iter` under `T: Ord`
+                if !self.dict_used.contains(&("T".to_string(), "cmp".to_string())) {
+                    self.dict_used.push(("T".to_string(), "cmp".to_string()));
+                }
+                return Ok((format!("omap (btreeset_from_iter T_cmp) ({})", r), Comp));
+            }
             return Ok((r, k));
         }
         // Result / Option adaptors whose receiver must stay a computation
@@ -3349,10 +3378,11 @@ fn main() {
                         dparams.push(format!("{{A_{} : Type}}", d));
                         declared_types.push(d.clone());
                     }
-                    for m in ["is_ssz_fixed_len", "ssz_fixed_len", "ssz_bytes_len", "ssz_append", "from_ssz_bytes", "try_from_iter"] {
+                    for m in ["is_ssz_fixed_len", "ssz_fixed_len", "ssz_bytes_len", "ssz_append", "from_ssz_bytes", "try_from_iter", "cmp"] {
                         if used.iter().any(|u| *u == m) {
                             sig_members.push(format!("{}_{}", d, m));
                             dparams.push(match m {
+                                "cmp" => format!("({}_{} : A_{} -> A_{} -> comparison)", d, m, d, d),
                                 "is_ssz_fixed_len" => format!("({}_{} : bool)", d, m),
                                 "ssz_fixed_len" => format!("({}_{} : N)", d, m),
                                 "ssz_bytes_len" => format!("({}_{} : A_{} -> outcome N)", d, m, d),
